@@ -935,24 +935,25 @@ fn graph_info_obs(id: u64, g: &FnGraph<Fun>, lines: &mut Vec<String>) {
         Err(_) => obs("GY", "E".to_string()),
     }
     // GYB / GYG: the reader on texts the writer never produced from a built graph (malformed stream): one more edge
-    // triple appended whose target is not a node (petgraph must refuse it: `E`), and one whose endpoints are nodes
-    // (accepted even if it closes a cycle: daggy's Deserialize does not test for cycles) - `Yaml.gi_parse` decides alike.
+    // triple appended whose target is not a node (petgraph must refuse it: `E`), and one from the first to the last
+    // function of `iter()` (n >= 2: it cannot close a cycle, so the text is that of a legitimate GraphInfo value and
+    // must be read back with that edge) - `Yaml.gi_parse` decides alike.
     if let Ok(s) = serde_yaml_ng::to_string(&gi) {
         let n = gn.len();
-        let with_edge = |b: usize, k: &str| -> String {
+        let with_edge = |a: usize, b: usize, k: &str| -> String {
             let head = match s.strip_suffix("  edges: []\n") {
                 Some(h) => format!("{h}  edges:\n"),
                 None => s.clone(),
             };
-            format!("{head}  - - 0\n    - {b}\n    - {k}\n")
+            format!("{head}  - - {a}\n    - {b}\n    - {k}\n")
         };
         let read = |t: String| match serde_yaml_ng::from_str::<GraphInfo<u64>>(&t) {
             Ok(g2) => format!("ok {}", g2.graph.edge_count()),
             Err(_) => "E".to_string(),
         };
-        obs("GYB", read(with_edge(n, "Logic")));
-        if n >= 1 {
-            obs("GYG", read(with_edge(n - 1, "Data")));
+        obs("GYB", read(with_edge(0, n, "Logic")));
+        if n >= 2 {
+            obs("GYG", read(with_edge(gi_iter[0], gi_iter[n - 1], "Data")));
         }
     }
     // GS: serde_yaml_ng round trip.
